@@ -5,6 +5,9 @@ Driver ops of part Main (model `MainGlue`). One request per line, blank separate
   main.plan <tok>*
      environment : cpus=N  scanon=<hex> (canonical form of the -s value; absent: it does not exist)
                    odir=1 (the -o value is an existing directory)  pmok=1 (mapping file readable)
+                   rustlib=<hex> (tool dir of the rustc sysroot)  envllvm=<hex> (env var LLVM_PATH)
+                   exists=<hex>,… (tool paths that exist)  gcovenv=<hex> (env var GCOV)
+                   lognc=1 (the --log file cannot be created)  gcno=<hex>,… (8-byte headers)
      raw options : t=<occ>;<occ>… with <occ> = <hex>,<hex>…   sort=… (same)   f=<hex>  prec=N
                    vcs=<hex> log=<hex> lvl=<hex>
                    in=<hex>,…  bin= llvmp= o= cfgf= s= p= ine=1 ign=<hex>,… keep=<hex>,… pm= br=1
@@ -103,8 +106,16 @@ def parseRaw (ts : Toks) : Option Raw := do
 def parseEnv (ts : Toks) : Option Env := do
   let cpus := (← optNat ts "cpus").getD 1
   let scanon ← optBytes ts "scanon"
+  let exist ← bytesList ts "exists"
+  let headers ← bytesList ts "gcno"
   pure { cpus := cpus, canon := fun _ => scanon, isDir := fun _ => flag ts "odir"
-         mappingReadable := fun _ => flag ts "pmok" }
+         mappingReadable := fun _ => flag ts "pmok"
+         rustlibBin := ← optBytes ts "rustlib"
+         envLlvmPath := ← optBytes ts "envllvm"
+         toolExists := fun p => exist.contains p
+         envGcov := ← optBytes ts "gcovenv"
+         logCreatable := fun _ => !flag ts "lognc"
+         gcnoHeaders := headers }
 
 def showOpt : Option (List Nat) → String
   | none => "-"
@@ -147,9 +158,28 @@ def showLevel : LogLevel → String
   | .off => "OFF" | .error => "ERROR" | .warn => "WARN" | .info => "INFO" | .debug => "DEBUG"
   | .trace => "TRACE"
 
+def showTool : ToolRes → String
+  | .found p => "F:" ++ toHex p
+  | .notFound p => "N:" ++ toHex p
+  | .noRustc => "R"
+
+def showLog : LogTarget → String
+  | .stdout => "stdout"
+  | .stderr => "stderr"
+  | .file f => "file:" ++ toHex f
+  | .stderrFallback f => "fallback:" ++ toHex f
+
+def showRoute : GcnoRoute → String
+  | .buffers => "B"
+  | .gcovTool => "G"
+
 def showPlan (p : Plan) : String :=
   joinWith " " [
-    "log=" ++ (match p.log with | .stdout => "stdout" | .stderr => "stderr" | .file f => "file:" ++ toHex f),
+    "log=" ++ showLog p.log,
+    "llvmpath=" ++ showOpt p.llvmPath,
+    "tools=" ++ showTool p.profdataTool ++ "," ++ showTool p.covTool,
+    "gcov=" ++ toHex p.gcovExe,
+    "routes=" ++ joinWith "," (p.gcnoRoutes.map showRoute),
     "lvl=" ++ showLevel p.logLevel,
     s!"th={p.threads}", s!"q={p.queueCap}", "pco=" ++ showBool p.producerCoveredOnly,
     "llvm=" ++ showBool p.llvm, "in=" ++ showList p.inputs,
